@@ -85,6 +85,12 @@ def gen_cases(ctx):
                 if pick:
                     ms["foreign"] = {"to": rng.choice(pick), "type": rng.choice([193, 193, 193, 70, 131]),
                                      "delay_us": rng.choice([200, 1000, 4000])}
+            if rng.random() < 0.12:
+                # "multicasts never cause a NETWORK_ACK": also not when a relay re-broadcasts them
+                ms = {"src": src, "dst": src, "type": rng.choice([65, 66, 100, 127, 129, 160, 191, 64, 192, t]),
+                      "len": rng.choice([0, 8, 24]), "plan": None, "mc": rng.choice([None, 0, 1, 2, 3, 4])}
+                msgs.append(ms)
+                continue
             msgs.append(ms)
             if rng.random() < 0.25:
                 # the application sends the same header object again (same id, same type)
@@ -95,6 +101,7 @@ def gen_cases(ctx):
                 msgs.append(again)
         yield {"nodes": nodes, "msgs": msgs, "tx_timeout": tx_to, "route_timeout": rt_to,
                "mc_off": [a for a in nodes if rng.random() < 0.25],
+               "relay": [a for a in nodes if a and rng.random() < 0.35],
                "profiles": {str(a): N.rand_profile(rng, base=base) for a in nodes},
                "seed": rng.getrandbits(30)}
 
@@ -115,6 +122,8 @@ def _run(ctx, case, net):
         def setup(o):
             o.tx_timeout = case["tx_timeout"]
             o.route_timeout = case["route_timeout"]
+            if a in case.get("relay", ()):
+                o.multicast_relay = True
             if a in case.get("mc_off", ()):
                 o.allow_multicast = False
                 o.node_address = a  # the documented way to apply it (pipe 0 moves to the node's own address)
@@ -143,6 +152,12 @@ def _run(ctx, case, net):
     net.air.fault = fault
     for k, ms in enumerate(case["msgs"]):
         def fn(nn, ms=ms):
+            if "mc" in ms:
+                active["plan"] = None
+                r = nn.obj.multicast(bytes([k & 0xFF]) * ms["len"], ms["type"], ms["mc"]) if ms["mc"] is not None \
+                    else nn.obj.multicast(bytes([k & 0xFF]) * ms["len"], ms["type"])
+                ms["_fid"] = nn.obj.frame_buf.header.frame_id
+                return r
             if ms.get("again") and ms["src"] in last_hdr:
                 h = last_hdr[ms["src"]]
                 h.to_node, h.message_type = ms["dst"], ms["type"]
@@ -185,6 +200,18 @@ def _run(ctx, case, net):
         pk = [p for p in net.air.log[rec["air0"]:(nxt[0] if nxt else None)]
               if p.kind == "data" and len(p.payload) >= 8]
         hd = [(p, net_ref.unpack_header(p.payload)) for p in pk]
+        if "mc" in ms:
+            ctx.clause("no_ack_for_others")
+            na = [(p, h) for p, h in hd if h["type"] == net_ref.NETWORK_ACK and h["from"] == h["to"]]
+            if na:
+                ctx.violation("multicast-caused-network-ack", "multicast of type %d from %s to level %r "
+                              "(relays %r): %d NETWORK_ACK packet(s) on air, first sent by %s to %s"
+                              % (t, oct(src), ms["mc"], [oct(a) for a in case.get("relay", [])], len(na),
+                                 na[0][0].src.name, oct(na[0][1]["to"])), case)
+                return
+            if pk:
+                ctx.nontrivial(("mc", ms["mc"], t >= 65 and t <= 191, bool(case.get("relay"))))
+            continue
         acks = [(p, h) for p, h in hd if h["type"] == net_ref.NETWORK_ACK and h["from"] == h["to"]
                 and h["id"] == ms.get("_fid")]
         fwd = [(p, h) for p, h in hd if h["id"] == ms.get("_fid") and h["from"] == src
